@@ -179,6 +179,17 @@ def tail(s, n):
 # step 3: build harness, run both sides
 
 def build_harness(fast=False):
+    if fast == "dbg":
+        # the same harness with debug assertions ON (`cargo test`'s profile has them, a release build does not): behaviour that depends
+        # on the build profile — a `debug_assert!` with a side effect or a panic, `cfg!(debug_assertions)` — shows up as a line on which
+        # this build answers differently from what the property (or the model) says
+        with Lock("cargo-dbg.lock"):
+            env = {"CARGO_PROFILE_RELEASE_DEBUG_ASSERTIONS": "true"}
+            if REPO != "/repo":
+                env["VERIF_REPO"] = REPO
+            rc, out = run(["cargo", "build", "--release", "--offline", "--target-dir", os.path.join(HARNESS, "target-dbg")], cwd=HARNESS, env=env, timeout=3600)
+        binp = os.path.join(HARNESS, "target-dbg", "release", "wowsrp_impl")
+        return rc == 0 and os.path.exists(binp), binp, out
     with Lock("cargo-fast.lock" if fast else "cargo.lock"):
         if fast:
             cmd = ["cargo", "build", "--release", "--offline", "--no-default-features", "--features", "fast-math",
@@ -444,6 +455,13 @@ def _main():
             log("[%s] fast-math harness does not build:\n%s" % (pid, tail(out2, 40)))
             return no_build(pid, rdir, "srp-fast-math", out2, lean, tier, seed, t_start, mod)
         backends.append(("rug", impl2))
+    ok3, impl3, out3 = build_harness("dbg")
+    if ok3:
+        backends.append(("num-dbg", impl3))
+    else:
+        lean["notes"].append("the harness does not build with debug assertions on (the other build does): " + tail(out3, 10))
+        log("[%s] NOTE harness with debug assertions does not build:\n%s" % (pid, tail(out3, 20)))
+    both = getattr(mod, "BOTH_BACKENDS", False)
 
     rng = random.Random(seed * 1000003 + int(hashlib.sha1(pid.encode()).hexdigest()[:8], 16))
     cases = []
@@ -469,7 +487,7 @@ def _main():
     t1 = time.time()
     raw_outs = {}
     for name, b in backends:
-        if len(backends) == 2:
+        if both and name in ("num", "rug"):
             # C19: the panic message is part of the comparison between the two builds (not with the model)
             raw = run_lines([b], lines, env={"VERIF_PANIC_MSG": "1"})
             # only the crate's own documented panics (`.expect(..)` on an InvalidPublicKeyError, whose message ends in
@@ -489,7 +507,7 @@ def _main():
         lean["notes"].append("model driver binary %s is missing" % MODEL_BIN)
     if lean["driver_ok"]:
         for name, _ in backends:
-            model_outs[name] = run_lines([MODEL_BIN, name], lines)
+            model_outs[name] = model_outs["num"] if name == "num-dbg" else run_lines([MODEL_BIN, name], lines)
     t_model = time.time() - t1
 
     disagreements = []   # impl vs model
@@ -519,7 +537,7 @@ def _main():
                 f = g(c, o)
             if f:
                 oracle_fail.append(dict(line=c.line, backend=name, impl=o, why=f, kind=c.kind))
-        if len(backends) == 2 and raw_outs["num"][i] != raw_outs["rug"][i]:
+        if both and raw_outs["num"][i] != raw_outs["rug"][i]:
             backend_diff.append(dict(line=c.line, num=raw_outs["num"][i], rug=raw_outs["rug"][i], kind=c.kind))
         nt = mod.nontrivial(c, outs["num"][i]) if hasattr(mod, "nontrivial") else c.line
         if nt is not None:
